@@ -183,6 +183,16 @@ pub fn hermes_rewrite() -> Report {
         let after: Vec<(u32, String, Option<String>)> = out.tokens().map(|t| (t.get_dst_col(), t.get_source().unwrap_or("").to_string(), out.get_scope_for_token(t).map(|s| s.to_string()))).collect();
         if before != after { return r("hermes_rewrite", bound, cases, Some(format!("sources listed {srcs:?}, first used in order {order:?}, unreferenced last = {unused}: (column, source, function) before {before:?} after {after:?}"))); }
     } }
+    // fewer function maps than sources (malformed Hermes payloads must not make rewrite panic)
+    for nfm in 0..=2usize { for used in 0..3u32 {
+        cases += 1;
+        let fms: Vec<String> = (0..nfm).map(|i| format!(r#"[{{"names":["f{i}"],"mappings":"AAA"}}]"#)).collect();
+        let json = format!(r#"{{"version":3,"sources":["a","b","c"],"names":[],"mappings":"{}","x_facebook_sources":[{}]}}"#, mappings(&[(0, 0, Some((used, 0, 0)), None)]), fms.join(","));
+        let smh = match SourceMapHermes::from_slice(json.as_bytes()) { Ok(m) => m, Err(_) => continue };
+        if let Err(p) = guarded(|| smh.rewrite(&RewriteOptions::default()).map(|m| m.get_token_count()).map_err(|e| e.to_string())) {
+            return r("hermes_rewrite", bound, cases, Some(format!("Hermes map with {nfm} function maps for 3 sources, token on source {used}: rewrite {p}")));
+        }
+    } }
     r("hermes_rewrite", bound, cases, None)
 }
 
@@ -403,4 +413,38 @@ pub fn adjust(dups: bool) -> Report {
     } }
     if let Some(k) = known { println!("{}", serde_json::json!({"known_finding": "D10", "first_input": k})); }
     r(name, bound, cases, None)
+}
+
+// ------------------------------------------------------------------ C05 / C06 / C02
+/// decoding documents with extreme numbers: never a panic; agrees with the reference reader while all running sums stay in range
+pub fn decode_extreme() -> Report {
+    use sourcemap::decode_slice;
+    let bound = "mappings of <= 3 segments (on 1..2 lines) whose fields are drawn from {0, 1, -1, 2^31, 2^32-1, -(2^32-1), +-2^61, +-(2^62-1)} with 1..6 fields, against 0..2 sources / names; every returned map is queried, serialised and re-read";
+    let mut cases = 0u64;
+    let vals: Vec<i64> = vec![0, 1, -1, 1 << 31, (1 << 32) - 1, -((1 << 32) - 1), 1 << 61, -(1 << 61), (1 << 62) - 1, -((1 << 62) - 1)];
+    let mut segs: Vec<Vec<i64>> = vec![];
+    for n in 1..=6usize { for &a in &vals { for &b in &vals { let mut v = vec![0i64; n]; v[0] = a; if n > 1 { v[n - 1] = b; } if n > 2 { v[1] = if b < 0 { 0 } else { b.min(1) }; } segs.push(v.clone()); if n >= 4 { let mut w = v.clone(); w[2] = a; w[3] = b; segs.push(w); } } } }
+    segs.sort(); segs.dedup();
+    let pick: Vec<&Vec<i64>> = segs.iter().step_by(3).collect();
+    for (i, s1) in pick.iter().enumerate() { for s2 in pick.iter().skip(i % 7).step_by(11) { for sep in [",", ";"] { for (nsrc, nnames) in [(0usize, 0usize), (1, 1), (2, 2)] {
+        cases += 1;
+        let m = format!("{}{}{}{}{}", enc(s1), sep, enc(s2), sep, enc(s1));
+        let json = format!(r#"{{"version":3,"sources":[{}],"names":[{}],"mappings":"{}"}}"#, (0..nsrc).map(|i| format!("\"s{i}\"")).collect::<Vec<_>>().join(","), (0..nnames).map(|i| format!("\"n{i}\"")).collect::<Vec<_>>().join(","), m);
+        let got = match guarded(|| decode_slice(json.as_bytes())) { Ok(g) => g, Err(p) => return r("decode_extreme", bound, cases, Some(format!("decode_slice with mappings {m:?} (segments {s1:?} {s2:?} {s1:?}), {nsrc} sources: {p}"))) };
+        let want = refs::mappings_decode(&m, "", nsrc as i128, nnames as i128);
+        // running sums of positions in range?
+        let in_range = { let (mut dc, mut sl, mut sc) = (0i128, 0i128, 0i128); let mut ok = true;
+            for line in m.split(';') { dc = 0; for seg in line.split(',') { if let Some(v) = refs::vlq_parse(seg.as_bytes()) { dc += v[0]; if v.len() >= 4 { sl += v[2]; sc += v[3]; } for x in [dc, sl, sc] { if x < 0 || x > u32::MAX as i128 { ok = false; } } } } } ok };
+        match (&got, &want) {
+            (Ok(_), Err(())) if in_range => return r("decode_extreme", bound, cases, Some(format!("mappings {m:?} (segments {s1:?} {s2:?} {s1:?}) with {nsrc} sources / {nnames} names is accepted, the reference reader rejects it"))),
+            (Err(e), Ok(_)) if in_range => return r("decode_extreme", bound, cases, Some(format!("mappings {m:?} rejected ({e}) although well-formed"))),
+            _ => {}
+        }
+        if let Ok(DecodedMap::Regular(sm)) = got {
+            let res = guarded(|| { for t in sm.tokens() { let _ = (t.get_source(), t.get_name(), t.to_tuple(), format!("{t}")); } let _ = sm.lookup_token(u32::MAX, u32::MAX); let _ = sm.lookup_token(0, 0);
+                let mut out = vec![]; if sm.tokens().map(|t| t.get_dst_line()).max().unwrap_or(0) < 100000 { sm.to_writer(&mut out).map_err(|e| e.to_string())?; SourceMap::from_slice(&out).map(|_| ()).map_err(|e| format!("re-read: {e}"))?; } Ok::<(), String>(()) });
+            match res { Ok(Ok(())) => {}, Ok(Err(e)) => return r("decode_extreme", bound, cases, Some(format!("mappings {m:?}: {e}"))), Err(p) => return r("decode_extreme", bound, cases, Some(format!("mappings {m:?}: query / serialisation of the returned map: {p}"))) }
+        }
+    } } } }
+    r("decode_extreme", bound, cases, None)
 }
